@@ -167,7 +167,7 @@ func (h *harness) validStep(path string) bool {
 	withHeader := h.main.Store.GetCurrentHeaderHeight() == h.main.Store.GetCurrentBlockHeight()
 	errs := h.submit(h.main, blk, res, path, withHeader)
 	r.Eval(1)
-	r.Distinct("valid", path, len(txs), withHeader, h.tip()%8)
+	r.Distinct("valid", path, len(txs), withHeader, h.tip())
 	st := h.main.Store
 	if len(errs) > 0 || st.GetCurrentBlockHeight() != blk.Header.Height || st.GetCurrentBlockHash() != blk.Hash() {
 		r.Violation("valid-successor-refused", fmt.Sprintf("valid successor at height %d via %s not committed: %v (tip now %d)", blk.Header.Height, path, errs, st.GetCurrentBlockHeight()), ctx)
@@ -274,7 +274,7 @@ func (h *harness) mutantStep(kind, path string) bool {
 	ctx := map[string]interface{}{"kind": kind, "path": path, "tip": tip, "block": kit.Hex(blk.ToArray())}
 	errs := h.submit(h.main, blk, res, path, true)
 	r.Eval(1)
-	r.Distinct("mutant", kind, path, len(errs) > 0)
+	r.Distinct("mutant", kind, path, len(errs) > 0, tip, len(blk.Transactions))
 	after := h.snap()
 	if len(errs) > 0 {
 		r.Count("mutant_refused_with_error", 1)
@@ -343,10 +343,10 @@ func openPair(r *kit.Run, name string, withTwin bool) (*harness, func()) {
 func TestC13(t *testing.T) {
 	r := kit.Start(t, "C13", "exploration")
 	defer r.Finish()
-	r.Rule("sequences of 12 submissions on real ledgers (a fresh ledger every 25 sequences): each submission is the valid successor (40%) or one of 14 mutant kinds, pushed through ExecuteBlock+SubmitBlock or AddHeaders+AddBlock; evaluation = one submission; distinct = (kind, path, refused-with-error?, tx count, tip mod 8)")
+	r.Rule("sequences of 12 submissions on real ledgers (a fresh ledger every 25 sequences): each submission is the valid successor (40%) or one of 14 mutant kinds, pushed through ExecuteBlock+SubmitBlock or AddHeaders+AddBlock; evaluation = one submission; distinct = (kind, path, refused-with-error?, tx count, tip height)")
 	r.Assume("'changes the ledger' = current block height/hash, state root, lookups of committed blocks/transactions, and the accumulators as observed through a twin ledger; a header accepted by AddHeaders without its block is not a commit")
 	r.Assume("a submission at an already committed height may return nil (ignored) or an error; both count as 'changes nothing'")
-	nSeq := r.N(300, 10000)
+	nSeq := r.N(200, 10000)
 	var h *harness
 	var closeFn func()
 	for s := 0; s < nSeq; s++ {
